@@ -2,6 +2,7 @@ import GqlVerif.Props.C09
 import GqlVerif.Proofs.C09Options
 import GqlVerif.Proofs.C09Normalization
 import GqlVerif.Proofs.ComposedC09
+import GqlVerif.Proofs.C09SchemaExamples
 open GqlVerif.C09
 #print axioms field_wire_indep
 #print axioms enum_wire_indep
@@ -41,3 +42,23 @@ open GqlVerif.C09
 #print axioms GqlVerif.Composed.fieldsWF_of_wellScoped
 #print axioms GqlVerif.Composed.fieldsWF_of_generated
 #print axioms GqlVerif.Composed.fieldsWF_fails_on_generated
+-- the injectivity side conditions as a predicate on schema, query and case functions (Proofs/C09Schema*.lean)
+#print axioms GqlVerif.C09S.calc_pairs
+#print axioms GqlVerif.C09S.module_pairs
+#print axioms GqlVerif.C09S.namesInjective_of_schema
+#print axioms GqlVerif.C09S.idStable_of_schema
+#print axioms GqlVerif.C09S.enumIdentsInjective_of_schema
+#print axioms GqlVerif.C09S.variantIdentsOK_of_injective
+#print axioms GqlVerif.C09S.normalization_wire_invariant_schema
+#print axioms GqlVerif.C09S.normalization_wire_invariant_schema_ok
+#print axioms GqlVerif.C09S.normalization_wire_invariant_schema''
+#print axioms GqlVerif.C09S.schemaNamesOK_eq_clauses
+#print axioms GqlVerif.C09S.okSchema_hyps
+#print axioms GqlVerif.C09S.w1_clauses
+#print axioms GqlVerif.C09S.w2_clauses
+#print axioms GqlVerif.C09S.w3_clauses
+#print axioms GqlVerif.C09S.w4_clauses
+#print axioms GqlVerif.C09S.w5_clauses
+#print axioms GqlVerif.C09S.witness_keyword
+#print axioms GqlVerif.C09S.witness_scalar_path
+#print axioms GqlVerif.C09S.witness_struct_name
